@@ -224,6 +224,232 @@ Definition cstep_or_stay (tasks : list beh) (s : cst) (l : clabel) : cst :=
 Definition crun (tasks : list beh) (ls : list clabel) : cst :=
   fold_left (cstep_or_stay tasks) ls cinit.
 
+
+(* ------------------------------------------------------------------ Part 2b *)
+(* waterfall.Simple (with the empty-chain fix): no scheduler.  The callback runs the next
+   task (or final) INLINE, nested inside the task that called it, on whatever goroutine calls
+   the callback; there is no recover, so a panic unwinds through every enclosing task to the
+   caller of Simple / of the callback.  Big-step evaluator; [fuel] bounds the nesting depth
+   (Proofs.v: [S (length tasks)] is always enough, [XFuel] is never returned). *)
+
+Inductive xres := XOk | XPanic | XFuel.
+
+Record xst := mkX {
+  x_started : bool;
+  x_cursor : nat;
+  x_pool : list ((nat * nat) * cb);
+  x_log : list ev
+}.
+
+Definition x_logev (s : xst) (e : ev) : xst :=
+  mkX (x_started s) (x_cursor s) (x_pool s) (x_log s ++ [e]).
+
+(* the task body's synchronous callback calls, in order; [rec s i a] is exec(i, a) *)
+Fixpoint x_calls (rec : xst -> nat -> list Z -> xst * xres) (s : xst) (l : list cb) : xst * xres :=
+  match l with
+  | [] => (s, XOk)
+  | (true, a) :: l' => x_calls rec (x_logev s (EFinal true a)) l'
+  | (false, a) :: l' =>
+      let s1 := mkX (x_started s) (S (x_cursor s)) (x_pool s) (x_log s) in
+      match rec s1 (S (x_cursor s)) a with
+      | (s2, XOk) => x_calls rec s2 l'
+      | (s2, r) => (s2, r)                (* the panic unwinds through this task too *)
+      end
+  end.
+
+(* exec(i, args) when i < size, final(false, args) otherwise (gonext's test; for i = 0 the
+   added size check) *)
+Fixpoint x_exec (fuel : nat) (tasks : list beh) (s : xst) (i : nat) (args : list Z) : xst * xres :=
+  match fuel with
+  | O => (s, XFuel)
+  | S f =>
+      match nth_error tasks i with
+      | None => (x_logev s (EFinal false args), XOk)
+      | Some (Beh il lt pan) =>
+          match x_calls (x_exec f tasks) (x_logev s (ETask i args)) il with
+          | (s2, XOk) =>
+              (mkX (x_started s2) (x_cursor s2) (x_pool s2 ++ number i 0 lt) (x_log s2),
+               if pan then XPanic else XOk)
+          | (s2, r) => (s2, r)
+          end
+      end
+  end.
+
+Inductive xlabel := XStart | XFire (i k : nat).
+
+Definition x_fuel (tasks : list beh) : nat := S (length tasks).
+
+(* one top-level call: Simple(tasks, final) itself, or a callback invoked by the environment;
+   the result is what the calling goroutine sees (XPanic: the panic reaches it) *)
+Definition x_step (tasks : list beh) (s : xst) (l : xlabel) : option (xst * xres) :=
+  match l with
+  | XStart =>
+      if x_started s then None
+      else Some (x_exec (x_fuel tasks) tasks (mkX true (x_cursor s) (x_pool s) (x_log s)) 0 [])
+  | XFire i k =>
+      match take_pool (i, k) (x_pool s) with
+      | None => None
+      | Some ((true, a), p') => Some (x_logev (mkX (x_started s) (x_cursor s) p' (x_log s)) (EFinal true a), XOk)
+      | Some ((false, a), p') =>
+          Some (x_exec (x_fuel tasks) tasks (mkX (x_started s) (S (x_cursor s)) p' (x_log s)) (S (x_cursor s)) a)
+      end
+  end.
+
+Definition x_init : xst := mkX false 0 [] [].
+
+Definition x_step_or_stay (tasks : list beh) (sr : xst * list xres) (l : xlabel) : xst * list xres :=
+  match x_step tasks (fst sr) l with
+  | Some (s', r) => (s', snd sr ++ [r])
+  | None => sr
+  end.
+
+Definition x_run (tasks : list beh) (ls : list xlabel) : xst * list xres :=
+  fold_left (x_step_or_stay tasks) ls (x_init, []).
+
+(* ------------------------------------------------------------------ Part 2c *)
+(* waterfall.ExecAndWait (with the empty-chain fix).  The CALLER goroutine runs every task and
+   final itself: callbacks (from any goroutine) only store curArgs / curErr and send a token
+   into chanNext (capacity 1); the caller loops receiving tokens and returns after final ran
+   and closed the channel.  No recover: a task panic leaves ExecAndWait. *)
+
+Inductive token := TNext | TFinal.
+Inductive estatus := ENotStarted | ELooping | EReturned | ECallerPanic | ECallerStuck.
+
+Record est := mkE {
+  e_status : estatus;
+  e_cursor : nat;
+  e_chan : list token;                    (* buffered tokens (capacity 1) *)
+  e_blocked : list token;                 (* environment goroutines blocked in the send *)
+  e_closed : bool;
+  e_args : list Z;                        (* curArgs *)
+  e_err : bool;                           (* curErr *)
+  e_pool : list ((nat * nat) * cb);
+  e_log : list ev;
+  e_envpanics : nat                       (* environment goroutines that panicked (send on closed) *)
+}.
+
+Definition e_set_status (s : est) (st : estatus) : est :=
+  mkE st (e_cursor s) (e_chan s) (e_blocked s) (e_closed s) (e_args s) (e_err s) (e_pool s) (e_log s) (e_envpanics s).
+
+Definition e_logev (s : est) (e : ev) : est :=
+  mkE (e_status s) (e_cursor s) (e_chan s) (e_blocked s) (e_closed s) (e_args s) (e_err s) (e_pool s)
+      (e_log s ++ [e]) (e_envpanics s).
+
+(* gonext(args) / gofinal(err, args): store, then send *)
+Definition e_store (s : est) (c : cb) : est * token :=
+  if fst c
+  then (mkE (e_status s) (e_cursor s) (e_chan s) (e_blocked s) (e_closed s) (snd c) true (e_pool s) (e_log s) (e_envpanics s), TFinal)
+  else (mkE (e_status s) (e_cursor s) (e_chan s) (e_blocked s) (e_closed s) (snd c) (e_err s) (e_pool s) (e_log s) (e_envpanics s), TNext).
+
+Definition e_put (s : est) (t : token) : est :=
+  mkE (e_status s) (e_cursor s) (e_chan s ++ [t]) (e_blocked s) (e_closed s) (e_args s) (e_err s) (e_pool s) (e_log s) (e_envpanics s).
+
+(* a send made by the caller goroutine itself: on a full buffer nobody is left to receive *)
+Definition e_csend (s : est) (c : cb) : est :=
+  let '(s1, t) := e_store s c in
+  if e_closed s1 then e_set_status s1 ECallerPanic
+  else match e_chan s1 with
+       | [] => e_put s1 t
+       | _ :: _ => e_set_status s1 ECallerStuck
+       end.
+
+(* a send made by an environment goroutine *)
+Definition e_esend (s : est) (c : cb) : est :=
+  let '(s1, t) := e_store s c in
+  if e_closed s1 then
+    mkE (e_status s1) (e_cursor s1) (e_chan s1) (e_blocked s1) true (e_args s1) (e_err s1) (e_pool s1) (e_log s1) (S (e_envpanics s1))
+  else match e_chan s1 with
+       | [] => e_put s1 t
+       | _ :: _ => mkE (e_status s1) (e_cursor s1) (e_chan s1) (e_blocked s1 ++ [t]) false (e_args s1) (e_err s1) (e_pool s1) (e_log s1) (e_envpanics s1)
+       end.
+
+Definition e_running (s : est) : bool := match e_status s with ELooping => true | _ => false end.
+
+(* tasks[i](callback, args) on the caller goroutine *)
+Definition e_task (s : est) (i : nat) (b : beh) (args : list Z) : est :=
+  match b with
+  | Beh il lt pan =>
+      let s1 := fold_left (fun s c => if e_running s then e_csend s c else s) il (e_logev s (ETask i args)) in
+      if e_running s1 then
+        let s2 := mkE (e_status s1) (e_cursor s1) (e_chan s1) (e_blocked s1) (e_closed s1) (e_args s1) (e_err s1)
+                      (e_pool s1 ++ number i 0 lt) (e_log s1) (e_envpanics s1) in
+        if pan then e_set_status s2 ECallerPanic else s2
+      else s1
+  end.
+
+(* gofinal(false, args) called by donext on the caller goroutine: curErr = false *)
+Definition e_gofinal_false (s : est) (args : list Z) : est :=
+  let s1 := mkE (e_status s) (e_cursor s) (e_chan s) (e_blocked s) (e_closed s) args false (e_pool s) (e_log s) (e_envpanics s) in
+  if e_closed s1 then e_set_status s1 ECallerPanic
+  else match e_chan s1 with
+       | [] => e_put s1 TFinal
+       | _ :: _ => e_set_status s1 ECallerStuck
+       end.
+
+(* donext's body after cursor++ : exec(cursor) or gofinal(false, args) *)
+Definition e_try (tasks : list beh) (s : est) (i : nat) (args : list Z) : est :=
+  match nth_error tasks i with
+  | Some b => e_task s i b args
+  | None => e_gofinal_false s args
+  end.
+
+Inductive elabel := WStart | WLoop | WFire (i k : nat).
+
+Definition estep (tasks : list beh) (s : est) (l : elabel) : option est :=
+  match l with
+  | WStart =>
+      match e_status s with
+      | ENotStarted =>
+          match tasks with
+          | [] => Some (e_set_status (e_logev s (EFinal false [])) EReturned)   (* the fix *)
+          | _ :: _ => Some (e_try tasks (e_set_status s ELooping) 0 [])
+          end
+      | _ => None
+      end
+  | WLoop =>
+      if e_running s then
+        match e_chan s with
+        | t :: rest =>
+            (* the receive; a blocked sender's token moves into the freed slot *)
+            let s1 := mkE ELooping (e_cursor s) (rest ++ firstn 1 (e_blocked s)) (skipn 1 (e_blocked s))
+                          (e_closed s) (e_args s) (e_err s) (e_pool s) (e_log s) (e_envpanics s) in
+            match t with
+            | TNext =>
+                let s2 := mkE ELooping (S (e_cursor s1)) (e_chan s1) (e_blocked s1) (e_closed s1) (e_args s1)
+                              (e_err s1) (e_pool s1) (e_log s1) (e_envpanics s1) in
+                Some (e_try tasks s2 (S (e_cursor s1)) (e_args s1))
+            | TFinal =>
+                (* dofinal: final(curErr, curArgs); close(chanNext) - blocked senders panic *)
+                Some (mkE ELooping (e_cursor s1) (e_chan s1) [] true (e_args s1) (e_err s1) (e_pool s1)
+                          (e_log s1 ++ [EFinal (e_err s1) (e_args s1)])
+                          (e_envpanics s1 + length (e_blocked s1)))
+            end
+        | [] => if e_closed s then Some (e_set_status s EReturned) else None
+        end
+      else None
+  | WFire i k =>
+      match take_pool (i, k) (e_pool s) with
+      | None => None
+      | Some (c, p') =>
+          Some (e_esend (mkE (e_status s) (e_cursor s) (e_chan s) (e_blocked s) (e_closed s) (e_args s) (e_err s)
+                             p' (e_log s) (e_envpanics s)) c)
+      end
+  end.
+
+Definition e_init : est := mkE ENotStarted 0 [] [] false [] false [] [] 0.
+
+Definition estep_or_stay (tasks : list beh) (s : est) (l : elabel) : est :=
+  match estep tasks s l with Some s' => s' | None => s end.
+
+Definition erun (tasks : list beh) (ls : list elabel) : est := fold_left (estep_or_stay tasks) ls e_init.
+
+(* the caller goroutine runs on its own until it blocks in the receive or leaves *)
+Fixpoint e_settle (fuel : nat) (tasks : list beh) (s : est) : est :=
+  match fuel with
+  | O => s
+  | S f => match estep tasks s WLoop with Some s' => e_settle f tasks s' | None => s end
+  end.
+
 (* ------------------------------------------------------------------ Part 3 *)
 (* Scripts: what the harness executes on one real sche.Sche whose consumer is the harness
    (one receive from GetChanTask + DoTask per OStep), then drains. *)
@@ -234,7 +460,12 @@ Inductive op :=
 | OStep                                  (* consumer handles one queued task, if any *)
 | OStop                                  (* Sche.Stop() (a second one is ignored) *)
 | OChain (c : Z) (tasks : list beh)      (* waterfall.Sche(sche, tasks, final) *)
+| OChainB (c : Z) (tasks : list beh)     (* the same through waterfall.NewBuilder(s).Next(..)...Final(..).Do() *)
+| OSimple (c : Z) (tasks : list beh)     (* waterfall.Simple(tasks, final) on a fresh goroutine, waited for *)
+| OWait (c : Z) (tasks : list beh)       (* waterfall.ExecAndWait(tasks, final) on its own goroutine, until it parks or leaves *)
 | OFire (c i k : Z)                      (* the k-th callback task i of chain c gave away fires, on a fresh goroutine *)
+| OMgrGet (n : Z)                        (* Mgr.GetSche(name n) on the case's own sche.Mgr *)
+| OMgrDel (n : Z)                        (* Mgr.DelSche(name n) *)
 | OConc (mode : Z) (progs : list (list kind))   (* fresh Sche, real consumer loop, concurrent posters *)
 | OConcN (mode np n : Z)                 (* OConc mode (np programs of n returning closures) *)
 | OConcW (mode : Z) (chains : list (list beh)). (* fresh Sche, real Handler, concurrent chains *)
@@ -243,7 +474,12 @@ Inductive sev :=
 | SExec (p n : Z)
 | SPostFail (p n : Z)
 | STask (c i : Z) (args : list Z)
-| SFinal (c : Z) (err : bool) (args : list Z).
+| SFinal (c : Z) (err : bool) (args : list Z)
+| SRet (c : Z)                           (* ExecAndWait of chain c returned *)
+| SEsc (c : Z)                           (* a panic reached the goroutine that called Simple / ExecAndWait / a callback of chain c *)
+| SHang (c : Z)                          (* a goroutine of chain c is blocked for ever in chanNext <- *)
+| SMgr (id : Z)                          (* GetSche returned the id-th distinct scheduler (numbered by first appearance) *)
+| SBad (code : Z).                       (* a measured invariant failed in the harness (never expected) *)
 
 Inductive obs :=
 | Obs (per_op : list (list sev)) (drain : list sev) (posts : list (Z * list bool)) (gor esc : bool)
@@ -266,7 +502,10 @@ Definition progs_of (ops : list op) : list (list kind) :=
   map (fun p => kinds_of p ops) (seq 0 nposters).
 
 Definition is_chain_op (o : op) : bool :=
-  match o with OChain _ _ | OFire _ _ _ => true | _ => false end.
+  match o with
+  | OChain _ _ | OChainB _ _ | OSimple _ _ | OWait _ _ | OFire _ _ _ | OMgrGet _ | OMgrDel _ => true
+  | _ => false
+  end.
 
 Definition beh_size (b : beh) : nat := length (completions b).
 Definition chain_size (t : list beh) : nat := S (fold_right (fun b a => beh_size b + a)%nat O t).
@@ -275,7 +514,7 @@ Definition op_posts (o : op) : nat :=
   match o with
   | OPost _ _ => 1
   | OPostN _ n => Z.to_nat n
-  | OChain _ t => chain_size t
+  | OChain _ t | OChainB _ t => chain_size t
   | _ => 0
   end.
 
@@ -291,11 +530,12 @@ Definition valid_op (o : op) : bool :=
   | OPost p _ => in_range 0 p (zn nposters)
   | OPostN p n => in_range 0 p (zn nposters) && in_range 0 n 3000
   | OStep | OStop => true
-  | OChain c _ => 0 <=? c
+  | OChain c _ | OChainB c _ | OSimple c _ | OWait c _ => 0 <=? c
+  | OMgrGet n | OMgrDel n => in_range 0 n 8
   | OFire c i k => (0 <=? c) && (0 <=? i) && (0 <=? k)
-  | OConc m progs => in_range 0 m 4 && Nat.leb (length progs) 64
+  | OConc m progs => in_range 0 m 5 && Nat.leb (length progs) 64
                      && (in_range 0 m 2 || negb (has_panic progs))
-  | OConcN m np n => in_range 0 m 4 && in_range 0 np 65 && in_range 0 n 20001
+  | OConcN m np n => in_range 0 m 5 && in_range 0 np 65 && in_range 0 n 20001
   | OConcW m _ => in_range 0 m 2
   end.
 
@@ -491,22 +731,46 @@ Definition run_sched_script (ops : list op) : obs :=
 
 Inductive qitem := QClos (p n : nat) (k : kind) | QChain (c : Z) (it : citem).
 
+Inductive chain_state :=
+| CSche (tasks : list beh) (s : cst)      (* cst.cq is always [] here: items sit in [w_q] *)
+| CSimple (tasks : list beh) (s : xst)
+| CWait (tasks : list beh) (s : est).
+
+Record mgr_state := mkM { m_reg : alist Z; m_next : Z }.   (* name -> scheduler id *)
+
+(* Mgr.GetSche: create if missing *)
+Definition m_get (m : mgr_state) (n : Z) : mgr_state * Z :=
+  match aget n (m_reg m) with
+  | Some id => (m, id)
+  | None => (mkM (aset n (m_next m) (m_reg m)) (m_next m + 1), m_next m)
+  end.
+
+Definition m_del (m : mgr_state) (n : Z) : mgr_state := mkM (adel n (m_reg m)) (m_next m).
+
+Inductive mop := MGet (n : Z) | MDel (n : Z).
+
+Definition m_step (m : mgr_state) (o : mop) : mgr_state :=
+  match o with MGet n => fst (m_get m n) | MDel n => m_del m n end.
+
+Definition m_run (ops : list mop) : mgr_state := fold_left m_step ops (mkM [] 0).
+
 Record wst := mkW {
   w_q : list qitem;
   w_stopped : bool;
-  w_chains : alist (list beh * cst);      (* cst.cq is always [] here: items sit in [w_q] *)
+  w_chains : alist chain_state;
+  w_mgr : mgr_state;
   w_seq : list nat;                       (* per poster: next sequence number *)
   w_posts : list (list bool)              (* per poster: Post results so far, reversed *)
 }.
 
 Definition w_enqueue (w : wst) (its : list qitem) : wst :=
   if w_stopped w then w
-  else mkW (w_q w ++ its) false (w_chains w) (w_seq w) (w_posts w).
+  else mkW (w_q w ++ its) false (w_chains w) (w_mgr w) (w_seq w) (w_posts w).
 
 Definition w_post (w : wst) (p : nat) (k : kind) : wst :=
   let n := nth p (w_seq w) O in
   let w1 := w_enqueue w [QClos p n k] in
-  mkW (w_q w1) (w_stopped w1) (w_chains w1) (set_nth p (S n) (w_seq w1))
+  mkW (w_q w1) (w_stopped w1) (w_chains w1) (w_mgr w1) (set_nth p (S n) (w_seq w1))
       (set_nth p (negb (w_stopped w) :: nth p (w_posts w) []) (w_posts w1)).
 
 Definition new_events (c : Z) (old new : list ev) : list sev :=
@@ -516,45 +780,98 @@ Definition w_step (w : wst) : wst * list sev :=
   match w_q w with
   | [] => (w, [])
   | QClos p n _ :: q =>
-      (mkW q (w_stopped w) (w_chains w) (w_seq w) (w_posts w), [SExec (zn p) (zn n)])
+      (mkW q (w_stopped w) (w_chains w) (w_mgr w) (w_seq w) (w_posts w), [SExec (zn p) (zn n)])
   | QChain c it :: q =>
       match aget c (w_chains w) with
-      | None => (mkW q (w_stopped w) (w_chains w) (w_seq w) (w_posts w), [])
-      | Some (tasks, cs) =>
+      | Some (CSche tasks cs) =>
           let cs1 := run_item tasks cs it in
           let cs2 := mkC (cursor cs1) [] (pool cs1) (clog cs1) in
-          let w1 := mkW q (w_stopped w) (aset c (tasks, cs2) (w_chains w)) (w_seq w) (w_posts w) in
+          let w1 := mkW q (w_stopped w) (aset c (CSche tasks cs2) (w_chains w)) (w_mgr w) (w_seq w) (w_posts w) in
           (w_enqueue w1 (map (QChain c) (cq cs1)), new_events c (clog cs) (clog cs1))
+      | _ => (mkW q (w_stopped w) (w_chains w) (w_mgr w) (w_seq w) (w_posts w), [])
       end
   end.
+
+Definition w_set_chain (w : wst) (c : Z) (x : chain_state) : wst :=
+  mkW (w_q w) (w_stopped w) (aset c x (w_chains w)) (w_mgr w) (w_seq w) (w_posts w).
+
+Definition esc_event (c : Z) (r : xres) : list sev :=
+  match r with XOk => [] | _ => [SEsc c] end.
+
+Definition e_fuel (tasks : list beh) : nat := (2 * chain_size tasks + 4)%nat.
+
+(* what became of the caller goroutine / of the environment goroutine during one op *)
+Definition caller_event (c : Z) (old new : est) : list sev :=
+  match e_status old, e_status new with
+  | EReturned, _ | ECallerPanic, _ | ECallerStuck, _ => []
+  | _, EReturned => [SRet c]
+  | _, ECallerPanic => [SEsc c]
+  | _, ECallerStuck => [SHang c]
+  | _, _ => []
+  end.
+
+Definition env_event (c : Z) (old new : est) : list sev :=
+  (if Nat.ltb (e_envpanics old) (e_envpanics new) then [SEsc c] else [])
+  ++ (if Nat.ltb (length (e_blocked old)) (length (e_blocked new)) then [SHang c] else []).
 
 Definition w_op (w : wst) (o : op) : wst * list sev :=
   match o with
   | OPost p k => (w_post w (Z.to_nat p) k, [])
   | OPostN p n => (iter (Z.to_nat n) (fun w => w_post w (Z.to_nat p) KOk) w, [])
   | OStep => w_step w
-  | OStop => (mkW (w_q w) true (w_chains w) (w_seq w) (w_posts w), [])
-  | OChain c tasks =>
+  | OStop => (mkW (w_q w) true (w_chains w) (w_mgr w) (w_seq w) (w_posts w), [])
+  | OChain c tasks | OChainB c tasks =>
       match aget c (w_chains w) with
       | Some _ => (w, [])                 (* chain id already used: ignored *)
       | None =>
-          let w1 := mkW (w_q w) (w_stopped w) (aset c (tasks, mkC 0 [] [] []) (w_chains w))
-                        (w_seq w) (w_posts w) in
+          let w1 := w_set_chain w c (CSche tasks (mkC 0 [] [] [])) in
           (w_enqueue w1 [QChain c IStart], [])
+      end
+  | OSimple c tasks =>
+      match aget c (w_chains w) with
+      | Some _ => (w, [])
+      | None =>
+          match x_step tasks x_init XStart with
+          | Some (s', r) => (w_set_chain w c (CSimple tasks s'), new_events c [] (x_log s') ++ esc_event c r)
+          | None => (w, [])
+          end
+      end
+  | OWait c tasks =>
+      match aget c (w_chains w) with
+      | Some _ => (w, [])
+      | None =>
+          let s' := e_settle (e_fuel tasks) tasks (estep_or_stay tasks e_init WStart) in
+          (w_set_chain w c (CWait tasks s'), new_events c [] (e_log s') ++ caller_event c e_init s')
       end
   | OFire c i k =>
       match aget c (w_chains w) with
       | None => (w, [])
-      | Some (tasks, cs) =>
+      | Some (CSche tasks cs) =>
           match take_pool (Z.to_nat i, Z.to_nat k) (pool cs) with
           | None => (w, [])
           | Some (x, p') =>
               let cs1 := mkC (cursor cs) [] p' (clog cs) in
-              let w1 := mkW (w_q w) (w_stopped w) (aset c (tasks, cs1) (w_chains w))
-                            (w_seq w) (w_posts w) in
-              (w_enqueue w1 [QChain c (item_of x)], [])
+              (w_enqueue (w_set_chain w c (CSche tasks cs1)) [QChain c (item_of x)], [])
+          end
+      | Some (CSimple tasks s) =>
+          match x_step tasks s (XFire (Z.to_nat i) (Z.to_nat k)) with
+          | Some (s', r) => (w_set_chain w c (CSimple tasks s'), new_events c (x_log s) (x_log s') ++ esc_event c r)
+          | None => (w, [])
+          end
+      | Some (CWait tasks s) =>
+          match estep tasks s (WFire (Z.to_nat i) (Z.to_nat k)) with
+          | Some s1 =>
+              let s' := e_settle (e_fuel tasks) tasks s1 in
+              (w_set_chain w c (CWait tasks s'),
+               new_events c (e_log s) (e_log s') ++ env_event c s s1 ++ caller_event c s s')
+          | None => (w, [])
           end
       end
+  | OMgrGet n =>
+      let '(m, id) := m_get (w_mgr w) n in
+      (mkW (w_q w) (w_stopped w) (w_chains w) m (w_seq w) (w_posts w), [SMgr id])
+  | OMgrDel n =>
+      (mkW (w_q w) (w_stopped w) (w_chains w) (m_del (w_mgr w) n) (w_seq w) (w_posts w), [])
   | OConc _ _ | OConcN _ _ _ | OConcW _ _ => (w, [])
   end.
 
@@ -586,7 +903,7 @@ Definition w_post_results (w : wst) : list (Z * list bool) :=
                      | l => [(zn i, rev l)]
                      end) (seq 0 nposters).
 
-Definition w_init : wst := mkW [] false [] (repeat O nposters) (repeat [] nposters).
+Definition w_init : wst := mkW [] false [] (mkM [] 0) (repeat O nposters) (repeat [] nposters).
 
 Definition run_chain_script (ops : list op) : obs :=
   let '(w1, per) := w_ops w_init ops in
